@@ -120,7 +120,7 @@ def lazy_index_stage(ctx):
     cfg = tlc.render_cfg({"Vals": {"b1", "b2"}, "Offs": {0, 1} if ctx.quick() else {0, 1, 3}, "Sizes": {0, 2},
                           "MaxEv": 4 if ctx.quick() else 5, "Members0": set(), "GetWeight": 1},
                          invariants=["LazyInv", "GetIsFresh"], constraints=["Bound"])
-    r = tlc.run("LazyIndex", cfg, workers=16, coverage=True, want_records=False)
+    r = tlc.run("LazyIndex", cfg, workers=16, coverage=True, want_records=False, heap="8g")
     if r.errors:
         raise MachineryFailure("LazyIndex: %s" % r.errors[0][:1000])
     ctx.states += r.distinct
@@ -239,10 +239,13 @@ def p_sym(ctx):
 
 @plan("C11")
 def p_cfg(ctx):
-    names = ["Cfg1", "Cfg2", "CfgMove"] + ([] if ctx.quick() else ["CfgT"])
+    names = ["Cfg1", "Cfg2", "CfgMove"]
     results = parallel(lambda n: run_tlc_config(n, emit=True), names)
     for n, r in zip(names, results):
         stages.stage_graph(ctx, n, result=r)
+    if not ctx.quick():
+        # three labels: 1.8 million transitions -- simulated, not dumped (the dump alone needs several GB in the harness)
+        stages.stage_sim(ctx, "CfgT", num=1500, depth=40)
     from . import driver
     driver.stage_traces(ctx, "TraceData", n_traces=30 if ctx.quick() else 300, length=60 if ctx.quick() else 100)
     ctx.assumptions.append("nodes compared by identity, labels by value; label tokens map to fixed EdgeLabel values")
